@@ -531,6 +531,88 @@ func runC08(c *Ctx) {
 	c.rule("R-POS-WRITERS", 4, "lruStore.present has exactly the writers {update callback, Store} and deleters {Remove, Evict}, each deletion after the heap removal; the callback is installed")
 	rulePosWriters(c)
 
+	// ---- R-SIZEFN-FAITHFUL: the size function the cache accounts with is the configured one
+	c.rule("R-SIZEFN-FAITHFUL", 1, "the size function installed in the cache is the configured function itself, a closure returning exactly its result, or (nothing configured) a constant")
+	{
+		n := 0
+		var judgeFn func(v ssa.Value, at token.Pos, depth int)
+		judgeFn = func(v ssa.Value, at token.Pos, depth int) {
+			if depth > 4 {
+				return
+			}
+			switch x := v.(type) {
+			case *ssa.Phi:
+				for _, e := range x.Edges {
+					judgeFn(e, at, depth+1)
+				}
+			case *ssa.ChangeType:
+				judgeFn(x.X, at, depth+1)
+			case *ssa.Call:
+				if cal := staticCallee(&x.Call); cal != nil && origin(cal).Blocks != nil && origin(cal).Pkg == P.SPkgs["cache"] {
+					allInstrs(origin(cal), func(in ssa.Instruction) {
+						if ret, ok := in.(*ssa.Return); ok && len(ret.Results) == 1 {
+							judgeFn(ret.Results[0], ret.Pos(), depth+1)
+						}
+					})
+				}
+			case *ssa.MakeClosure:
+				cl := x.Fn.(*ssa.Function)
+				// does it capture a function (the configured size function)?
+				var inner []*ssa.Call
+				allInstrs(cl, func(in ssa.Instruction) {
+					if call, ok := in.(*ssa.Call); ok && staticCallee(&call.Call) == nil && !call.Call.IsInvoke() {
+						if _, isB := call.Call.Value.(*ssa.Builtin); !isB {
+							inner = append(inner, call)
+						}
+					}
+				})
+				n++
+				key := fmt.Sprintf("cache size function:closure #%d", n)
+				if len(inner) == 0 {
+					c.ok("R-SIZEFN-FAITHFUL", key, cl.Pos(), "a default that consults no configured function")
+					return
+				}
+				okAll := true
+				allInstrs(cl, func(in ssa.Instruction) {
+					if ret, ok := in.(*ssa.Return); ok && len(ret.Results) == 1 {
+						isInner := false
+						for _, ic := range inner {
+							if ret.Results[0] == ssa.Value(ic) {
+								isInner = true
+							}
+						}
+						if !isInner {
+							okAll = false
+						}
+					}
+				})
+				c.judge(okAll, "R-SIZEFN-FAITHFUL", key, cl.Pos(), "returns the configured function's result unchanged", "the size function installed in the cache wraps the configured one and alters its result: Size is no longer the sum of the configured sizes (e.g. values of size 0), and entries are evicted that would fit")
+			case *ssa.UnOp:
+				if _, f := loadedField(x); f != nil {
+					n++
+					c.ok("R-SIZEFN-FAITHFUL", fmt.Sprintf("cache size function:field .%s #%d", f.Name(), n), at, "the configured function itself")
+				}
+			case *ssa.Function:
+				n++
+				c.ok("R-SIZEFN-FAITHFUL", fmt.Sprintf("cache size function:%s #%d", fnName(x), n), at, "a named function")
+			}
+		}
+		for _, fn := range P.PkgFuncs("cache") {
+			allInstrs(fn, func(in ssa.Instruction) {
+				st, ok := in.(*ssa.Store)
+				if !ok {
+					return
+				}
+				fa, ok := st.Addr.(*ssa.FieldAddr)
+				if !ok {
+					return
+				}
+				if _, f := fieldVarOf(fa); sameField(f, sizeOfF) {
+					judgeFn(st.Val, st.Pos(), 0)
+				}
+			})
+		}
+	}
 	// ---- R-CLEAR-ALL: Clear returns only once the entry count is known to be ≤ 0
 	c.rule("R-CLEAR-ALL", 1, "every path of Cache.Clear to a return crosses a branch edge on which count ≤ 0 holds")
 	if clear := P.Func("cache", "Cache", "Clear"); clear == nil {
